@@ -200,6 +200,10 @@ func vfRunArb(c vfArbCase, wrapped bool) (*httptest.ResponseRecorder, []string, 
 			switch op.Op {
 			case "header":
 				w.Header().Set("X-Handler-"+op.Arg, "handler-value")
+			case "vary-add": // the handler adds to a header that an outer middleware had set before it ran
+				w.Header().Add("Vary", "Accept-Encoding")
+			case "vary-set":
+				w.Header().Set("Vary", "X-Handler-Choice")
 			case "write":
 				n, err := w.Write([]byte("HANDLER-BODY-" + op.Arg))
 				log = append(log, fmt.Sprintf("write=%d,%v", n, err))
@@ -296,8 +300,11 @@ func vfArbCheck(c vfArbCase) error {
 			return verifkit.Violf("raw-handler-leak", "handler-set header %q reached the response", k)
 		}
 	}
-	if c.Snapshot && res.Header.Get("Vary") != "Origin" {
-		return verifkit.Violf("raw-snapshot-lost", "header set by outer middleware was dropped: %v", res.Header)
+	if c.Snapshot && fmt.Sprint(res.Header.Values("Vary")) != "[Origin]" {
+		return verifkit.Violf("raw-snapshot-lost", "header set by outer middleware must come through as it was before the handler ran (Vary: Origin), got %q (ops %v)", res.Header.Values("Vary"), c.Ops)
+	}
+	if !c.Snapshot && len(res.Header.Values("Vary")) != 0 {
+		return verifkit.Violf("raw-handler-leak", "handler-set header Vary %q reached the response (ops %v)", res.Header.Values("Vary"), c.Ops)
 	}
 	if err := vfCheckHeaders("header", vfWantHeaders(c.Raw.Headers), res.Header); err != nil {
 		return err
@@ -369,7 +376,7 @@ func TestVerifC17Arbiter(t *testing.T) {
 			c := vfArbCase{Raw: vfGenRawResp(t, false), Snapshot: rapid.Bool().Draw(t, "snapshot")}
 			hasRaw := false
 			for i, n := 0, rapid.IntRange(1, 7).Draw(t, "nops"); i < n; i++ {
-				op := vfArbOp{Op: rapid.SampledFrom([]string{"header", "write", "writeheader", "flush", "setraw", "setraw"}).Draw(t, "op"),
+				op := vfArbOp{Op: rapid.SampledFrom([]string{"header", "vary-add", "vary-set", "write", "writeheader", "flush", "setraw", "setraw"}).Draw(t, "op"),
 					Arg: fmt.Sprint(i), Code: rapid.SampledFrom([]int{200, 201, 400, 500}).Draw(t, "code")}
 				if op.Op == "setraw" {
 					if hasRaw {
